@@ -100,3 +100,736 @@ class C13(check.Check):
                 i += width
         d["opts"] = opts
         return d
+
+
+# ======================================================================================================== C14
+class InjectedFault(BaseException):
+    """raised by the fault injector inside the compiler (BaseException so that no `except Exception` swallows it)"""
+
+
+def install_uuid_seam(seed):
+    """uuid.uuid4 -> seeded 122-bit stream, seeded ONCE per interpreter (never per compile: ids never repeat inside a history)."""
+    import random
+    import uuid
+
+    r = random.Random(seed)
+
+    def uuid4():
+        return uuid.UUID(int=(r.getrandbits(128) & ~(0xF << 76) & ~(0x3 << 62)) | (4 << 76) | (0x2 << 62))
+
+    uuid.uuid4 = uuid4
+
+
+class CallCounter:
+    def __init__(self, target=None):
+        self.n = 0
+        self.target = target
+        self.site = None
+
+    def __call__(self, frame, event, arg):
+        if event == "call":
+            fn = frame.f_code.co_filename
+            if "/ethosu/vela/" in fn:
+                self.n += 1
+                if self.n == self.target:
+                    self.site = f"{os.path.basename(fn)}:{frame.f_code.co_name}"
+                    raise InjectedFault(self.site)
+        return None
+
+
+def one_compile(src, name, opts, entry, workdir, fault_at=None, count_calls=False):
+    """One compilation through a public entry point in THIS process.  -> dict(rc, exc_type, out (digest|None), csv (digest|None), calls)"""
+    import sys
+    import hashlib
+    import glob
+    from . import compile as C
+    from ethosu.vela import vela
+
+    os.makedirs(workdir, exist_ok=True)
+    cwd = os.getcwd()
+    os.chdir(workdir)
+    srcp = os.path.join(workdir, name + ".tflite")
+    with open(srcp, "wb") as f:
+        f.write(src)
+    tracer = CallCounter(fault_at) if (fault_at or count_calls) else None
+    res = dict(rc=None, exc_type=None, out=None, csv=None, calls=None, out_len=None)
+    data = None
+    try:
+        with C.Capture() as cap:
+            try:
+                if tracer:
+                    sys.settrace(tracer)
+                try:
+                    if entry == "main":
+                        res["rc"] = vela.main([srcp, "--output-dir", os.path.join(workdir, "out")] + list(opts))
+                        p = os.path.join(workdir, "out", name + "_vela.tflite")
+                        data = open(p, "rb").read() if res["rc"] == 0 and os.path.exists(p) else None
+                        for cp in glob.glob(os.path.join(workdir, "out", name + "_summary_*.csv")):
+                            rows = open(cp).read().splitlines()
+                            res["csv"] = hashlib.sha256(rows[-1].encode()).hexdigest()[:16] if rows else None
+                    elif entry == "convert":
+                        p = vela.convert(srcp)
+                        res["rc"] = 0
+                        data = open(p, "rb").read()
+                    else:
+                        data = bytes(vela.convert_bytes(bytearray(src)))
+                        res["rc"] = 0
+                finally:
+                    sys.settrace(None)
+            except InjectedFault as e:
+                res["exc_type"] = "InjectedFault"
+                res["site"] = str(e)
+            except SystemExit as e:
+                res["rc"] = e.code if isinstance(e.code, int) else 1
+            except BaseException as e:  # noqa
+                res["exc_type"] = type(e).__name__
+                res["site"] = C.exc_site(e)
+                res["msg"] = str(e)[:200]
+        res["console_tail"] = cap.text[-300:]
+    finally:
+        os.chdir(cwd)
+    if data is not None:
+        res["out"] = hashlib.sha256(data).hexdigest()[:16]
+        res["out_len"] = len(data)
+    if tracer:
+        res["calls"] = tracer.n
+    import shutil
+
+    shutil.rmtree(os.path.join(workdir, "out"), ignore_errors=True)
+    shutil.rmtree(os.path.join(workdir, "output"), ignore_errors=True)
+    return res
+
+
+def in_grandchild(fn, *args):
+    """Run fn(*args) in a fresh fork of this (still pristine) process: the single-copy reference."""
+    import pickle
+
+    r, w = os.pipe()
+    pid = os.fork()
+    if pid == 0:
+        code = 0
+        try:
+            os.close(r)
+            try:
+                val = ("ok", fn(*args))
+            except BaseException as e:  # noqa
+                val = ("exc", repr(e)[:300])
+            with os.fdopen(w, "wb") as f:
+                f.write(pickle.dumps(val))
+        except BaseException:  # noqa
+            code = 3
+        finally:
+            os._exit(code)
+    os.close(w)
+    buf = b""
+    with os.fdopen(r, "rb") as f:
+        buf = f.read()
+    os.waitpid(pid, 0)
+    st, val = pickle.loads(buf) if buf else ("died", None)
+    if st != "ok":
+        raise RuntimeError(f"golden run failed in the harness: {st} {val}")
+    return val
+
+
+DEFAULT_OPTS = []  # what convert()/convert_bytes() use: ethos-u65-256, internal defaults, HillClimb, Performance, 384 KiB
+
+
+def gen_pool(r):
+    """Models chosen to share process-wide state keys: identical LUTs (same activation + quantisation in different networks),
+    identical all-zero biases, shared weight values / seeds, equal tensor names."""
+    pool = []
+    shared_seed = r.randrange(1 << 30)
+    lut_q = [round(r.choice([0.02, 0.05, 0.1]), 3), r.choice([-128, 0, 3])]
+    for k in range(r.choice([3, 4, 5])):
+        style = r.choice(["lut", "lut", "conv", "generated", "generated"])
+        if style == "generated":
+            rec = netgen.gen_recipe(r, profile=r.choice(["mixed", "lut", "npu_only"]))
+        else:
+            H, W, C = r.choice([(8, 8, 8), (6, 5, 16), (12, 4, 8)])
+            layers = []
+            cur = 0
+            if style == "conv" or r.random() < 0.6:
+                layers.append(dict(op="CONV_2D", k=[3, 3], oc=r.choice([8, 16]), stride=[1, 1], dil=[1, 1], pad="SAME", act="NONE", q=lut_q, per_axis=False,
+                                   wstyle="uniform", wscale=0.01, bias=True, bmax=0 if r.random() < 0.5 else 100, seed=shared_seed, **{"in": [cur]}))
+                cur += 1
+            layers.append(dict(op=r.choice(["LOGISTIC", "TANH"]), q=[1 / 256, -128], seed=1, **{"in": [cur]}))
+            layers[-1]["q"] = list(netgen._act_q("int8", layers[-1]["op"]))
+            cur += 1
+            if r.random() < 0.5:
+                layers.append(dict(op="ADD", act="NONE", q=[0.05, 0], seed=2, **{"in": [cur, cur]}))
+                cur += 1
+            rec = dict(name="net", inputs=[dict(shape=[1, H, W, C], dtype="int8", q=lut_q if style != "conv" else [0.05, -3])], layers=layers,
+                       outputs=[cur], dup_names=False)
+        pool.append(rec)
+    return pool
+
+
+OPTION_POOL = [
+    [],
+    ["--accelerator-config", "ethos-u55-128"],
+    ["--accelerator-config", "ethos-u65-512", "--optimise", "Size"],
+    ["--accelerator-config", "ethos-u55-64", "--tensor-allocator", "Greedy"],
+    ["--accelerator-config", "ethos-u65-256", "--tensor-allocator", "LinearAlloc", "--arena-cache-size", "40000"],
+    ["--accelerator-config", "ethos-u55-256", "--enable-debug-db"],
+]
+
+
+class C14(check.Check):
+    pid = "C14"
+    level = "fault_enumeration"
+    quick = dict(cases=320, budget=100, timeout=150)
+    thorough = dict(cases=6000, budget=1500, timeout=400)
+    components = {"real": ["vela.main / vela.convert / vela.convert_bytes and the whole compiler with all of its process-global state",
+                           "ethosu.vela.api entry points between compilations"],
+                  "model": ["single-copy reference: the same compilation alone in a fresh fork", "fault injector (exception at the N-th function entry)",
+                            "file-system faults on the output directory"], "stub": []}
+    assumptions = ["uuid.uuid4 is replaced by a seeded stream seeded once per interpreter so that runs replay; ids never repeat inside a history",
+                   "a compilation interrupted by an injected fault is excused; every later compilation is not"]
+    rule = ("histories (2..7 steps: compile via main/convert/convert_bytes, compile with an injected exception at a random function entry, "
+            "output-directory faults, public API calls, gc) over pools of models that share LUTs, biases, weights and tensor names, under "
+            "several (PYTHONHASHSEED, heap perturbation, uuid seed) interpreters; distinct = digest(history); non-trivial = >= 2 completed "
+            "compilations in one process")
+
+    def interpreters(self, tier, seed):
+        r = seeds.rng(seed, "C14", "interp")
+        n = 2 if tier == "quick" else 6
+        return [dict(PYTHONHASHSEED=0 if k == 0 else r.randrange(1, 1 << 32), heap=0 if k == 0 else r.randrange(1, 5000),
+                     uuid=r.randrange(1 << 62)) for k in range(n)]
+
+    def boot(self):
+        super().boot()
+        env = json.loads(os.environ.get("VERIF_ENV_JSON", "{}"))
+        install_uuid_seam(env.get("uuid", 12345))
+
+    def gen_case(self, seed, i, tier):
+        pr = seeds.rng(seed, "C14", "pool", i // 8)
+        pool = gen_pool(pr)
+        r = seeds.rng(seed, "C14", "hist", i)
+        steps = []
+        n = r.randint(2, 7)
+        for _ in range(n):
+            x = r.random()
+            m = r.randrange(len(pool))
+            if x < 0.62:
+                e = r.choice(["main", "main", "convert", "convert_bytes"])
+                o = 0 if e != "main" else r.choice([0, 0] + list(range(1, len(OPTION_POOL))))
+                steps.append(dict(k="compile", m=m, o=o, e=e))
+            elif x < 0.8:
+                steps.append(dict(k="fault", m=m, o=r.choice([0, 1, 2]), e="main", frac=round(r.random(), 4)))
+            elif x < 0.86:
+                steps.append(dict(k="io_fault", m=m, o=0, kind=r.choice(["outdir_is_file", "outdir_readonly"])))
+            elif x < 0.95:
+                steps.append(dict(k="api", acc=r.choice(["Ethos_U55_32", "Ethos_U55_256", "Ethos_U65_256", "Ethos_U65_512"])))
+            else:
+                steps.append(dict(k="gc"))
+        if not any(s_["k"] == "compile" for s_ in steps[1:]):
+            steps.append(dict(k="compile", m=r.randrange(len(pool)), o=0, e=r.choice(["main", "convert", "convert_bytes"])))
+        return dict(pool=pool, steps=steps)
+
+    def case_layers(self, desc):
+        return [s_["k"] + (":" + s_["e"] if "e" in s_ else "") for s_ in desc.get("steps", [])]
+
+    def run_case(self, desc):
+        import gc
+        import tempfile
+        import shutil
+
+        if desc.get("kind") == "env_pair":
+            return self.run_env_pair(desc)
+        out = dict(viol=[], counters={}, key=seeds.digest(desc["steps"]) + seeds.digest(desc["pool"]), nontrivial=False, evaluations=0)
+        pool = desc["pool"]
+        srcs = [netgen.build_bytes(rec) for rec in pool]
+        wd = tempfile.mkdtemp(prefix="verif-h-")
+        try:
+            # single-copy reference: every distinct compilation alone, in a fresh fork of this pristine process
+            golden = {}
+            for s_ in desc["steps"]:
+                if s_["k"] in ("compile", "fault"):
+                    key = (s_["m"], s_["o"], s_["e"])
+                    if key not in golden:
+                        golden[key] = in_grandchild(one_compile, srcs[s_["m"]], "net", OPTION_POOL[s_["o"]], s_["e"],
+                                                    os.path.join(wd, "g"), None, True)
+                        out["evaluations"] += 1
+            # entry points agree on the option set they share
+            for m in set(k[0] for k in golden):
+                outs = {e: golden[(m, 0, e)]["out"] for e in ("main", "convert", "convert_bytes") if (m, 0, e) in golden and golden[(m, 0, e)]["rc"] == 0}
+                if len(set(outs.values())) > 1:
+                    out["viol"].append(dict(prop="C14", oracle="entry_points_differ", model=m, outs=outs, sig=dict(oracle="entry_points_differ")))
+            completed = 0
+            trail = []
+            for si, s_ in enumerate(desc["steps"]):
+                k = s_["k"]
+                out["counters"]["step_" + k] = out["counters"].get("step_" + k, 0) + 1
+                if k == "gc":
+                    gc.collect()
+                    trail.append("gc")
+                    continue
+                if k == "api":
+                    self.api_step(s_)
+                    trail.append("api")
+                    continue
+                if k == "io_fault":
+                    d = os.path.join(wd, "io%d" % si)
+                    os.makedirs(d, exist_ok=True)
+                    bad = os.path.join(d, "out")
+                    if s_["kind"] == "outdir_is_file":
+                        open(bad, "w").write("x")
+                    else:
+                        os.makedirs(bad)
+                        os.chmod(bad, 0o500)
+                    r_ = one_compile(srcs[s_["m"]], "net", OPTION_POOL[s_["o"]], "main", d)
+                    out["counters"]["fault_io_" + s_["kind"]] = out["counters"].get("fault_io_" + s_["kind"], 0) + 1
+                    out["evaluations"] += 1
+                    trail.append("io_fault")
+                    if s_["kind"] != "outdir_is_file" and os.path.isdir(bad):
+                        os.chmod(bad, 0o700)
+                    continue
+                key = (s_["m"], s_["o"], s_["e"])
+                g = golden[key]
+                if k == "fault":
+                    total = max(2, g["calls"] or 2)
+                    at = max(1, int(s_["frac"] * total))
+                    r_ = one_compile(srcs[s_["m"]], "net", OPTION_POOL[s_["o"]], s_["e"], os.path.join(wd, "s%d" % si), fault_at=at)
+                    out["evaluations"] += 1
+                    fired = r_["exc_type"] == "InjectedFault"
+                    out["counters"]["fault_injected_exception_fired"] = out["counters"].get("fault_injected_exception_fired", 0) + int(fired)
+                    if fired:
+                        mod = (r_.get("site") or "?").split(":")[0]
+                        d_ = out["counters"].setdefault("fault_module", {})
+                        d_[mod] = d_.get(mod, 0) + 1
+                    trail.append("fault@" + (r_.get("site") or "-"))
+                    continue
+                r_ = one_compile(srcs[s_["m"]], "net", OPTION_POOL[s_["o"]], s_["e"], os.path.join(wd, "s%d" % si))
+                out["evaluations"] += 1
+                prev = trail[-1].split("@")[0] if trail else "start"
+                if (r_["rc"], r_["exc_type"]) != (g["rc"], g["exc_type"]):
+                    out["viol"].append(dict(prop="C14", oracle="history_changes_outcome", step=si, entry=s_["e"], after=trail[-3:], got=dict(rc=r_["rc"], exc=r_["exc_type"], site=r_.get("site"), msg=r_.get("msg")),
+                                            golden=dict(rc=g["rc"], exc=g["exc_type"]),
+                                            sig=dict(oracle="history_changes_outcome", exc=r_["exc_type"], site=(r_.get("site") or "").split(":")[0] + ":" + (r_.get("site") or "").split(":")[-1])))
+                elif r_["out"] != g["out"] or (s_["e"] == "main" and r_["csv"] != g["csv"]):
+                    out["viol"].append(dict(prop="C14", oracle="history_changes_output", step=si, entry=s_["e"], after=trail[-3:], got=r_["out"], golden=g["out"],
+                                            csv_differs=r_["csv"] != g["csv"], sig=dict(oracle="history_changes_output", after=prev)))
+                if r_["rc"] == 0:
+                    completed += 1
+                trail.append("compile:" + s_["e"])
+            out["nontrivial"] = completed >= 2
+            out["golden_digests"] = {seeds.digest([pool[k[0]], OPTION_POOL[k[1]], k[2]]): (g["out"], g["csv"]) for k, g in golden.items() if g["rc"] == 0}
+            out["golden_cases"] = {seeds.digest([pool[k[0]], OPTION_POOL[k[1]], k[2]]): dict(recipe=pool[k[0]], opts=OPTION_POOL[k[1]], entry=k[2]) for k in golden}
+            out["sample"] = dict(steps=desc["steps"], pool_layers=[[L["op"] for L in rec["layers"]] for rec in pool], trail=trail)
+        finally:
+            shutil.rmtree(wd, ignore_errors=True)
+        return out
+
+    def api_step(self, s_):
+        from ethosu.vela import api
+
+        acc = getattr(api.NpuAccelerator, s_["acc"])
+        api.npu_create_driver_payload([0x12345678, 0xFFFF0000], acc)
+        op = api.NpuPoolingOperation(api.NpuPoolingOp.MAX)
+        fm = api.NpuFeatureMap()
+        fm.data_type = api.NpuDataType.INT8
+        fm.region = 1
+        fm.shape = api.NpuShape3D(8, 8, 16)
+        fm.layout = api.NpuLayout.NHWC
+        fm.tiles = api.NpuTileBox(8, 0, 8, [0, 0, 0, 0])
+        fm.quantization = api.NpuQuantization(0.05, 0)
+        op.ifm = fm
+        op.ofm = fm
+        op.kernel = api.NpuKernel(1, 1)
+        op.padding = api.NpuPadding(0, 0, 0, 0)
+        api.npu_find_block_configs(op, acc)
+
+    # ---- cross-interpreter comparison of goldens (hash seed / heap / uuid independence)
+    def aggregate(self, descs, results):
+        agg = super().aggregate(descs, results)
+        seen = {}
+        for desc, res in zip(descs, results):
+            if res is None or res[0] != "ok":
+                continue
+            val = res[1]
+            for k, dig in (val.get("golden_digests") or {}).items():
+                env = desc.get("env")
+                if k in seen and seen[k][0] != tuple(dig) and seen[k][1] != env:
+                    case = val["golden_cases"][k]
+                    agg["viol"].append((dict(kind="env_pair", case=case, envs=[seen[k][1], env]),
+                                        dict(prop="C14", oracle="environment_changes_output", envs=[seen[k][1], env], sig=dict(oracle="environment_changes_output"))))
+                seen.setdefault(k, (tuple(dig), env))
+        agg["counters"]["goldens_compared_across_interpreters"] = len(seen)
+        return agg
+
+    def run_env_pair(self, desc):
+        case = desc["case"]
+        digs = []
+        for env in desc["envs"]:
+            d = dict(pool=[case["recipe"]], steps=[dict(k="compile", m=0, o=0, e=case["entry"])], _opts=case["opts"])
+            res = self.run_in_interpreters([dict(kind="golden_only", case=case)], [env], dict(timeout=200, budget=200), __import__("time").time())
+            st, val = res[0]
+            if st != "ok":
+                raise RuntimeError("golden interpreter failed: " + str(val)[-200:])
+            digs.append(val["digest"])
+        out = dict(viol=[], counters={}, key=seeds.digest(desc), nontrivial=True, evaluations=2)
+        if digs[0] != digs[1]:
+            out["viol"].append(dict(prop="C14", oracle="environment_changes_output", envs=desc["envs"], digests=digs, sig=dict(oracle="environment_changes_output")))
+        return out
+
+    def _guarded(self, desc):
+        if desc.get("kind") == "golden_only":
+            import tempfile
+            import shutil
+
+            c = desc["case"]
+            wd = tempfile.mkdtemp(prefix="verif-g-")
+            try:
+                r_ = one_compile(netgen.build_bytes(c["recipe"]), "net", c["opts"], c["entry"], wd)
+            finally:
+                shutil.rmtree(wd, ignore_errors=True)
+            return dict(digest=(r_["out"], r_["csv"]), viol=[], counters={}, key=None, nontrivial=False)
+        return self.run_case(desc)
+
+    def minimise(self, desc, sig):
+        if desc.get("kind") == "env_pair":
+            return desc
+        best = desc
+        changed = True
+        n = 0
+        while changed and n < 30:
+            changed = False
+            for i in range(len(best["steps"]) - 1, -1, -1):
+                if len(best["steps"]) <= 1:
+                    break
+                cand = dict(best, steps=best["steps"][:i] + best["steps"][i + 1:])
+                n += 1
+                if self.still_fails(cand, sig):
+                    best = cand
+                    changed = True
+                    break
+        return best
+
+
+# ======================================================================================================== C18
+MEMS = ["Sram", "Dram", "OnChipFlash", "OffChipFlash"]
+BUNDLED_DIR = os.path.join(netsim.C.REPO, "ethosu", "config_files")
+
+
+class RefError(Exception):
+    pass
+
+
+def parse_ini_text(text):
+    import configparser
+
+    cp = configparser.ConfigParser()
+    cp.read_string(text)
+    return {s: dict(cp.items(s)) for s in cp.sections()}
+
+
+def ref_resolve(files, sys_name, mem_name, acc, cli_cache):
+    """Executable reading of OPTIONS.md ('Configuration File', 'Memory Modes', 'Arena Cache Size').  files: list of
+    {section: {key: value}} in command-line order.  -> dict of expected values; raises RefError where the documentation
+    says the configuration is rejected."""
+    merged = {}
+    for f in files:
+        for sec, kv in f.items():
+            merged.setdefault(sec, {}).update(kv)
+
+    def lookup(section, key, depth=0):
+        if section not in merged:
+            raise RefError(f"section {section} not found")
+        sec = merged[section]
+        val = None
+        if "inherit" in sec:
+            if sec["inherit"] == section or depth > 20:
+                raise RefError("inherit references its own section")
+            val = lookup(sec["inherit"], key, depth + 1)
+        if key in sec:
+            val = sec[key]
+        return val
+
+    max_addr = 1 << (40 if acc.startswith("ethos-u65") else 32)
+    exp = {}
+    ssec = "System_Config." + sys_name
+    if ssec not in merged:
+        raise RefError("unknown system config")
+    v = lookup(ssec, "core_clock")
+    exp["core_clock"] = float(v) if v is not None else 1.0
+    ports = {}
+    for p in ("axi0_port", "axi1_port"):
+        v = lookup(ssec, p)
+        ports[p] = v if v is not None else "Sram"
+        if ports[p] not in MEMS:
+            raise RefError("bad port")
+    per_mem = {}
+    for p in ("axi0_port", "axi1_port"):
+        m = ports[p]
+        cs = lookup(ssec, m.lower() + "_clock_scale")
+        bl = lookup(ssec, m.lower() + "_burst_length")
+        rl = lookup(ssec, m.lower() + "_read_latency")
+        wl = lookup(ssec, m.lower() + "_write_latency")
+        per_mem[m] = dict(clock_scales=float(cs) if cs is not None else 1.0, burst_length=int(bl) if bl is not None else 1,
+                          read_latency=int(rl) if rl is not None else None, write_latency=int(wl) if wl is not None else None)
+    msec = "Memory_Mode." + mem_name
+    if msec not in merged:
+        raise RefError("unknown memory mode")
+    areas = {}
+    for a in ("const_mem_area", "arena_mem_area", "cache_mem_area"):
+        v = lookup(msec, a)
+        areas[a] = v if v is not None else "Axi0"
+        if areas[a] not in ("Axi0", "Axi1"):
+            raise RefError("bad area")
+    v = lookup(msec, "arena_cache_size")
+    cache = int(v) if v is not None else max_addr
+    cache_from_file = v is not None
+
+    def mapped(a):
+        return ports["axi0_port" if areas[a] == "Axi0" else "axi1_port"]
+
+    # SRAM-only systems: constants are described as living in an on-chip flash with the characteristics of the SRAM
+    if mapped("const_mem_area") == "Sram" and areas["const_mem_area"] == areas["arena_mem_area"] == areas["cache_mem_area"]:
+        if areas["const_mem_area"] == "Axi0":
+            areas["const_mem_area"] = "Axi1"
+            ports["axi1_port"] = "OnChipFlash"
+        else:
+            areas["const_mem_area"] = "Axi0"
+            ports["axi0_port"] = "OnChipFlash"
+        per_mem["OnChipFlash"] = dict(per_mem["Sram"])
+    if cli_cache is not None:
+        cache = cli_cache
+    if mapped("const_mem_area") not in ("Dram", "OnChipFlash", "OffChipFlash"):
+        raise RefError("const_mem_area must be Dram/OnChipFlash/OffChipFlash")
+    if mapped("arena_mem_area") not in ("Sram", "Dram"):
+        raise RefError("arena_mem_area must be Sram/Dram")
+    if mapped("cache_mem_area") != "Sram":
+        raise RefError("cache_mem_area must be Sram")
+    if cache < 0 or cache > max_addr:
+        raise RefError("arena_cache_size out of range")
+    exp.update(axi0_port=ports["axi0_port"], axi1_port=ports["axi1_port"], per_mem=per_mem, const_mem_area=areas["const_mem_area"],
+               arena_mem_area=areas["arena_mem_area"], cache_mem_area=areas["cache_mem_area"],
+               arena_cache_size=cache if (cli_cache is not None or cache_from_file) else None,
+               permanent_storage_mem_area=mapped("const_mem_area"), feature_map_storage_mem_area=mapped("arena_mem_area"),
+               fast_storage_mem_area=mapped("cache_mem_area"))
+    return exp
+
+
+def parse_verbose_config(txt):
+    got = {}
+    for line in txt.splitlines():
+        m = re.match(r"^\s{3}(\w+) = (.*)$", line)
+        if m:
+            got[m.group(1)] = m.group(2).strip()
+    return got
+
+
+def ini_text(sections):
+    out = []
+    for sec, kv in sections.items():
+        out.append(f"[{sec}]")
+        for k, v in kv.items():
+            out.append(f"{k}={v}")
+        out.append("")
+    return "\n".join(out)
+
+
+def gen_sections(r, tag):
+    """Random system configs and memory modes with inheritance chains; mostly valid, some documented-invalid."""
+    secs = {}
+    n_sys = r.randint(1, 3)
+    names_s = [f"S{tag}{i}" for i in range(n_sys)]
+    for i, nm in enumerate(names_s):
+        kv = {}
+        if i > 0 and r.random() < 0.7:
+            kv["inherit"] = "System_Config." + r.choice(names_s[:i])
+        if "inherit" not in kv or r.random() < 0.5:
+            p0, p1 = r.choice([("Sram", "Dram"), ("Sram", "OffChipFlash"), ("Sram", "OnChipFlash"), ("Dram", "Sram"), ("Sram", "Sram"), ("Dram", "Dram")])
+            if r.random() < 0.85:
+                kv["axi0_port"] = p0
+            if r.random() < 0.85:
+                kv["axi1_port"] = p1
+        if r.random() < 0.7:
+            kv["core_clock"] = r.choice(["500e6", "1e9", "2.5e8", "123456789"])
+        for m in MEMS:
+            if r.random() < 0.5:
+                kv[m + "_clock_scale"] = r.choice(["1.0", "0.5", "0.125", "0.75"])
+            if r.random() < 0.4:
+                kv[m + "_burst_length"] = str(r.choice([16, 32, 64, 128]))
+            if r.random() < 0.3:
+                kv[m + "_read_latency"] = str(r.choice([16, 32, 500]))
+                kv[m + "_write_latency"] = str(r.choice([16, 32, 250]))
+        secs["System_Config." + nm] = kv
+    n_mem = r.randint(1, 4)
+    names_m = [f"M{tag}{i}" for i in range(n_mem)]
+    for i, nm in enumerate(names_m):
+        kv = {}
+        if i > 0 and r.random() < 0.75:
+            kv["inherit"] = "Memory_Mode." + r.choice(names_m[:i])
+        if "inherit" not in kv or r.random() < 0.5:
+            c, a, ca = r.choice([("Axi1", "Axi0", "Axi0"), ("Axi1", "Axi1", "Axi0"), ("Axi0", "Axi0", "Axi0"), ("Axi1", "Axi0", "Axi1"), ("Axi0", "Axi1", "Axi0")])
+            if r.random() < 0.9:
+                kv["const_mem_area"] = c
+            if r.random() < 0.9:
+                kv["arena_mem_area"] = a
+            if r.random() < 0.9:
+                kv["cache_mem_area"] = ca
+        if r.random() < 0.6:
+            kv["arena_cache_size"] = str(r.choice([0, 16384, 393216, 524288, 1 << 20, (1 << 32) - 16, (1 << 32) + 16, 1 << 41, -1]))
+        secs["Memory_Mode." + nm] = kv
+    if r.random() < 0.06:
+        nm = r.choice(names_m)
+        secs["Memory_Mode." + nm]["inherit"] = "Memory_Mode." + nm
+    if r.random() < 0.05:
+        secs["Memory_Mode." + r.choice(names_m)]["inherit"] = "Memory_Mode.DoesNotExist"
+    return secs, names_s, names_m
+
+
+class C18(check.Check):
+    pid = "C18"
+    level = "exploration"
+    quick = dict(cases=1500, budget=90, timeout=90)
+    thorough = dict(cases=40000, budget=1200, timeout=200)
+    components = {"real": ["vela.main argument parsing, configuration path resolution, ArchitectureFeatures._get_vela_config / _read_config"],
+                  "model": ["environment simulator: private directory tree, working directory, decoy files", "reference resolver of OPTIONS.md"],
+                  "stub": ["the network compiled is a fixed one-operator model (only the resolved configuration is observed)"]}
+    assumptions = ["values are observed through --verbose-config; defaults documented only as '1 or the equivalent' are asserted for clock, ports, scales and burst length, not for latencies",
+                   "the arena cache size is asserted only when the command line or the selected memory mode specifies it"]
+    rule = ("generated .ini files (1..2 files, 1..3 system configs, 1..4 memory modes, inheritance chains, option subsets, port mappings, "
+            "out-of-range / self-inheriting / missing sections) or the bundled Arm/vela.ini given as Dir/file.ini, x selection options x "
+            "--arena-cache-size x working directory (private dir, dir with a decoy Arm/vela.ini, bundled config dir, /); distinct = "
+            "digest(case); non-trivial = a configuration file was selected")
+
+    def boot(self):
+        super().boot()
+        self.model = netgen.build_bytes(dict(name="one", inputs=[dict(shape=[1, 4, 4, 8], dtype="int8", q=[0.05, 0])],
+                                             layers=[dict(op="RELU", seed=1, **{"in": [0]})], outputs=[1]))
+
+    def gen_case(self, seed, i, tier):
+        r = seeds.rng(seed, "C18", "case", i)
+        acc = r.choice(netgen.ACCELS)
+        d = dict(acc=acc, files=[], cli_cache=None, cwd=r.choice(["tmp", "tmp", "decoy", "bundled", "root"]))
+        if r.random() < 0.35:
+            d["files"].append(dict(kind="bundled", spec="Arm/vela.ini"))
+            secs = None
+            d["sys"] = r.choice(["Ethos_U55_Deep_Embedded", "Ethos_U55_High_End_Embedded", "Ethos_U65_Embedded", "Ethos_U65_Mid_End",
+                                 "Ethos_U65_High_End", "Ethos_U65_Client_Server"] + (["Nope"] if r.random() < 0.1 else []))
+            d["mem"] = r.choice(["Sram_Only", "Shared_Sram", "Dedicated_Sram", "Dedicated_Sram_512KB"] + (["Nope"] if r.random() < 0.1 else []))
+            if r.random() < 0.3:
+                s2, ns, nm = gen_sections(r, "b")
+                d["files"].append(dict(kind="abs", sections=s2))
+                if r.random() < 0.5:
+                    d["mem"] = r.choice(nm)
+        else:
+            s1, ns, nm = gen_sections(r, "a")
+            d["files"].append(dict(kind=r.choice(["abs", "abs", "rel"]), sections=s1))
+            if r.random() < 0.3:
+                s2, ns2, nm2 = gen_sections(r, "a" if r.random() < 0.5 else "b")
+                d["files"].append(dict(kind="abs", sections=s2))
+                ns, nm = ns + ns2, nm + nm2
+            d["sys"] = r.choice(ns + (["Nope"] if r.random() < 0.08 else []))
+            d["mem"] = r.choice(nm + (["Nope"] if r.random() < 0.08 else []))
+        if r.random() < 0.5:
+            d["cli_cache"] = r.choice([0, 1, 16384, 100000, 393216, 1 << 24, (1 << 32), (1 << 32) + 1, 1 << 40, (1 << 40) + 1, -5])
+        return d
+
+    def case_layers(self, desc):
+        return [f["kind"] for f in desc["files"]] + [desc["cwd"]]
+
+    def run_case(self, desc):
+        import tempfile
+        import shutil
+
+        out = dict(viol=[], counters={}, key=seeds.digest(desc), nontrivial=True, evaluations=1)
+        root = tempfile.mkdtemp(prefix="verif-e-")
+        try:
+            userdir = os.path.join(root, "user", "cfg")
+            os.makedirs(userdir)
+            cwd = {"tmp": os.path.join(root, "work"), "decoy": os.path.join(root, "decoywork"), "bundled": BUNDLED_DIR, "root": "/"}[desc["cwd"]]
+            os.makedirs(os.path.join(root, "work"), exist_ok=True)
+            if desc["cwd"] == "decoy":
+                os.makedirs(os.path.join(cwd, "Arm"))
+                with open(os.path.join(cwd, "Arm", "vela.ini"), "w") as f:
+                    f.write(ini_text({"System_Config.Ethos_U55_High_End_Embedded": {"core_clock": "1", "axi0_port": "Dram", "axi1_port": "Dram"},
+                                      "Memory_Mode.Shared_Sram": {"const_mem_area": "Axi0", "arena_mem_area": "Axi0", "cache_mem_area": "Axi0"}}))
+            argv_cfg = []
+            parsed = []
+            for k, f in enumerate(desc["files"]):
+                if f["kind"] == "bundled":
+                    argv_cfg += ["--config", f["spec"]]
+                    parsed.append(parse_ini_text(open(os.path.join(BUNDLED_DIR, f["spec"])).read()))
+                else:
+                    p = os.path.join(userdir, f"file{k}.ini")
+                    with open(p, "w") as fh:
+                        fh.write(ini_text(f["sections"]))
+                    spec = p if f["kind"] == "abs" else os.path.relpath(p, cwd)
+                    if f["kind"] == "rel" and (len(spec.split(os.sep)) == 2 and not spec.startswith(".")):
+                        spec = p
+                    argv_cfg += ["--config", spec]
+                    parsed.append({s: {kk.lower(): vv for kk, vv in kv.items()} for s, kv in f["sections"].items()})
+            src = os.path.join(root, "one.tflite")
+            with open(src, "wb") as fh:
+                fh.write(self.model)
+            argv = [src, "--output-dir", os.path.join(root, "out"), "--accelerator-config", desc["acc"], "--verbose-config",
+                    "--system-config", desc["sys"], "--memory-mode", desc["mem"]] + argv_cfg
+            if desc["cli_cache"] is not None:
+                argv += ["--arena-cache-size", str(desc["cli_cache"])]
+            try:
+                exp = ref_resolve(parsed, desc["sys"], desc["mem"], desc["acc"], desc["cli_cache"])
+                exp_err = None
+            except RefError as e:
+                exp, exp_err = None, str(e)
+            old = os.getcwd()
+            os.chdir(cwd)
+            try:
+                cr = netsim.C.vela_main(argv)
+            finally:
+                os.chdir(old)
+            txt = cr["out"]
+            out["counters"]["cwd_" + desc["cwd"]] = 1
+            out["counters"]["expect_" + ("error" if exp_err else "ok")] = 1
+            ctx = dict(files=[f["kind"] for f in desc["files"]], cwd=desc["cwd"], sys=desc["sys"], mem=desc["mem"], cli_cache=desc["cli_cache"])
+            if cr["exc"]:
+                out["outcome"] = "internal_exception"
+                site = (cr["exc_site"] or "?").split(":")
+                out["viol"].append(dict(prop="C18", oracle="internal_exception", exc_type=cr["exc_type"], line=cr["exc_site"], msg=cr["exc_msg"], expected_error=exp_err, ctx=ctx,
+                                        sig=dict(oracle="internal_exception", exc_type=cr["exc_type"], site=site[0] + ":" + site[-1])))
+            elif exp_err is not None:
+                if cr["rc"] == 0:
+                    out["outcome"] = "accepted_invalid"
+                    out["viol"].append(dict(prop="C18", oracle="invalid_configuration_accepted", reason=exp_err, ctx=ctx, got=parse_verbose_config(txt),
+                                            sig=dict(oracle="invalid_configuration_accepted", reason=exp_err)))
+                elif "Error:" not in txt:
+                    out["outcome"] = "rejected_without_message"
+                    out["viol"].append(dict(prop="C18", oracle="rejected_without_error_message", reason=exp_err, ctx=ctx, sig=dict(oracle="rejected_without_error_message")))
+                else:
+                    out["outcome"] = "rejected_as_documented"
+            else:
+                if cr["rc"] != 0:
+                    out["outcome"] = "rejected_valid"
+                    err = [ln for ln in txt.splitlines() if "Error" in ln][:1]
+                    out["viol"].append(dict(prop="C18", oracle="valid_configuration_rejected", message=err, ctx=ctx,
+                                            sig=dict(oracle="valid_configuration_rejected", files=ctx["files"][0], cwd_dependent=desc["cwd"] != "bundled")))
+                else:
+                    got = parse_verbose_config(txt)
+                    diffs = []
+                    for k in ("axi0_port", "axi1_port", "const_mem_area", "arena_mem_area", "cache_mem_area", "permanent_storage_mem_area",
+                              "feature_map_storage_mem_area", "fast_storage_mem_area"):
+                        if got.get(k) != exp[k]:
+                            diffs.append((k, got.get(k), exp[k]))
+                    if abs(float(got.get("core_clock", "nan")) - exp["core_clock"]) > 1e-6 * max(1.0, exp["core_clock"]):
+                        diffs.append(("core_clock", got.get("core_clock"), exp["core_clock"]))
+                    if exp["arena_cache_size"] is not None:
+                        g = got.get("arena_cache_size", "").split(" ")[0]
+                        if g != str(exp["arena_cache_size"]):
+                            diffs.append(("arena_cache_size", got.get("arena_cache_size"), exp["arena_cache_size"]))
+                    for m, vals in exp["per_mem"].items():
+                        for kk, vv in vals.items():
+                            if vv is None:
+                                continue
+                            g = got.get(f"{m}_{kk}")
+                            if g is None or abs(float(g) - float(vv)) > 1e-9:
+                                diffs.append((f"{m}_{kk}", g, vv))
+                    out["outcome"] = "resolved" if not diffs else "resolved_differently"
+                    if diffs:
+                        out["viol"].append(dict(prop="C18", oracle="resolved_value_differs", diffs=diffs[:6], ctx=ctx,
+                                                sig=dict(oracle="resolved_value_differs", key=diffs[0][0])))
+            out["sample"] = dict(argv=[a if not a.startswith(root) else a.replace(root, "<tmp>") for a in argv[2:]], cwd=desc["cwd"], outcome=out.get("outcome"), expected_error=exp_err)
+        finally:
+            shutil.rmtree(root, ignore_errors=True)
+        return out
